@@ -185,6 +185,42 @@ def krylov_rule(chk, src, rule, rels):
     return n
 
 
+
+# ------------------------------------------------------------------------------------------ relative error estimates
+def norm_kind(e, binds):
+    """'full' for X.norm (includes the scalar prefactor), 'bare' for X.mp_norm / X.ttns_norm / X.distance(Y) (tensor part only)"""
+    if isinstance(e, ast.Attribute):
+        if e.attr == "norm":
+            return "full"
+        if e.attr in ("mp_norm", "ttns_norm"):
+            return "bare"
+    if isinstance(e, ast.Call) and isinstance(e.func, ast.Attribute) and e.func.attr == "distance":
+        return "bare"
+    if isinstance(e, ast.Name) and e.id in binds:
+        return norm_kind(binds[e.id], {})
+    return None
+
+
+def relative_error_rule(chk, src, rule):
+    n = 0
+    for fi in src.funcs_in(MPS):
+        if fi.parent is not None or "adaptive_rtol" not in unparse(fi.node):
+            continue
+        binds = {}
+        for st in ast.walk(fi.node):
+            if isinstance(st, ast.Assign) and isinstance(st.targets[0], ast.Name) and isinstance(st.value, ast.Call) and isinstance(st.value.func, ast.Attribute) and st.value.func.attr == "distance":
+                binds[st.targets[0].id] = st.value
+        for d in ast.walk(fi.node):
+            if isinstance(d, ast.BinOp) and isinstance(d.op, ast.Div):
+                kl, kr = norm_kind(d.left, binds), norm_kind(d.right, binds)
+                if kl is None or kr is None:
+                    continue
+                n += 1
+                chk.ob(rule, f"{fi.qual}: {unparse(d)[:50]}", kl == kr, fi.where, {"numerator": kl, "denominator": kr}, "same kind on both sides", line=d.lineno,
+                       detail=f"{fi.qual}: the relative error that drives the adaptive step size divides a norm {'with' if kl == 'full' else 'without'} the scalar prefactor by one "
+                              f"{'with' if kr == 'full' else 'without'} it: the estimate is off by |coeff| and steps are accepted/rejected against a different tolerance whenever coeff != 1")
+    return n
+
 # ------------------------------------------------------------------------------------------ solver sibling
 def prologue_env(fi, imag, krylov):
     """symbolic values of evolve_dt / coef after the prologue for (imaginary-time?, krylov-solver?)"""
@@ -451,6 +487,8 @@ def run(chk):
     add_cases(chk, "heff-network", K.hop_expr_cases(src), "effective Hamiltonian")
     must_compress_rule(chk, src, "must-compress")
     adaptive_reject_rule(chk, src, "adaptive-reject")
+    chk.rule("relative-error-homogeneous", "adaptive error estimates divide norms of the same kind (both with or both without the scalar prefactor)", 3)
+    relative_error_rule(chk, src, "relative-error-homogeneous")
     rk_usage_rule(chk, src, "rk-usage")
 
 
